@@ -880,11 +880,12 @@ func (fr *FnRun) havocLoopWrites(st *State, li *loopInfo, spec *LoopSpec) {
 		env := &Env{st: st, old: fr.entry, vars: vars, fr: fr}
 		pre := st.clone()
 		env.st = pre
+		idBefore := ex.objCount
 		for _, m := range spec.Modifies {
 			fr.havocLoc(st, m, env)
 		}
-		// frame guard: inside the loop only the havocked objects (and objects allocated later) may be written
-		g := &loopGuard{maxID: ex.objCount, ok: map[*Obj]bool{}, li: li}
+		// frame guard: inside the loop only the havocked objects (and objects created by the havoc or later) may be written
+		g := &loopGuard{maxID: idBefore, ok: map[*Obj]bool{}, li: li}
 		for o, v := range st.heap {
 			if pv, had := pre.heap[o]; !had || pv != v {
 				g.ok[o] = true
@@ -1006,6 +1007,9 @@ func (fr *FnRun) havocAt(st *State, p *PtrV) {
 func (fr *FnRun) loopCallEffects(st *State, li *loopInfo, c *ssa.CallCommon) {
 	ex := fr.ex
 	if c.IsInvoke() {
+		if ic := ex.DB.IfaceCtr[TypeKey(c.Value.Type())+"."+c.Method.Name()]; ic != nil && len(ic.Modifies) == 0 && !ic.ModAll {
+			return // specified interface method without effects
+		}
 		if v := fr.tryValue(st, c.Value); v != nil {
 			fr.havocReachable(st, v, map[*Obj]bool{})
 		} else {
